@@ -4,6 +4,7 @@ use crate::Cfg;
 pub mod c01;
 pub mod c02;
 pub mod c04;
+pub mod c05;
 pub mod c06;
 pub mod c07;
 pub mod c08;
@@ -15,6 +16,7 @@ pub fn run(prop: &str, cfg: &Cfg, rep: &mut Report) -> bool {
         "C01" => c01::run(cfg, rep),
         "C02" => c02::run(cfg, rep),
         "C04" => c04::run(cfg, rep),
+        "C05" => c05::run(cfg, rep),
         "C06" => c06::run(cfg, rep),
         "C07" => c07::run(cfg, rep),
         "C08" => c08::run(cfg, rep),
